@@ -61,6 +61,23 @@ func Register(p *Prop) { registry[p.ID] = p }
 // Lookup finds a property.
 func Lookup(id string) *Prop { return registry[id] }
 
+var roles = map[string]func(args []string) int{}
+
+// RegisterRole registers a helper process mode (`vcheck -role name args...`):
+// checks that need the code under test in a process of its own (to kill it)
+// start the same binary in that role.
+func RegisterRole(name string, f func(args []string) int) { roles[name] = f }
+
+// RunRole runs a registered role; 2 when unknown.
+func RunRole(name string, args []string) int {
+	f := roles[name]
+	if f == nil {
+		fmt.Fprintln(os.Stderr, "unknown role", name)
+		return 2
+	}
+	return f(args)
+}
+
 // IDs lists registered ids.
 func IDs() []string {
 	var ids []string
@@ -99,7 +116,7 @@ type Ctx struct {
 	Seed     int64
 	Batch    int
 	NBatches int
-	Dir      string // per-child scratch directory
+	Dir      string                 // per-child scratch directory
 	Store    map[string]interface{} // per-child state set by ChildSetup
 
 	mu       sync.Mutex
